@@ -27,6 +27,7 @@ Definition m_greedy (bs : nat) (basis src : list Z) : Z :=
 
 (** C19 / C18 *)
 From Copia Require Model.Path Model.Glob Model.Plan Model.Listing Model.Reconcile.
+From Copia Require Model.OneWay Model.OneWayExec Model.ShellQuote.
 Definition m_gm := Glob.gm.
 Definition m_glob_match := Glob.glob_match.
 Definition m_glob_match_prefix := Glob.glob_match_prefix.
@@ -54,4 +55,5 @@ Extraction "model.ml"
   encode_message encode_signature encode_delta decode_message decode_signature decode_delta
   run_delta_top run_patch_top mt_code
   m_gm m_glob_match m_glob_match_prefix m_is_excluded m_is_excluded_gm m_mm_insert m_build_plan m_needs_transfer
-  m_parse_listing m_render_listing m_reconcile_path m_table m_fp_insert m_reconcile.
+  m_parse_listing m_render_listing m_reconcile_path m_table m_fp_insert m_reconcile
+  OneWayExec.ow_exec OneWayExec.ow_tree_list ShellQuote.quoted_word ShellQuote.unquote_word ShellQuote.nul_list ShellQuote.xargs0.
